@@ -29,7 +29,7 @@ MANIFEST = {
     "technique": "Lean 4 proof over the program-counter model of RunEngine + bundler monitors; differential runs against the real RunEngine with a subscription ledger",
 }
 LEAN_MODULES = ["BlueskyVerif.Props.C41"]
-DRIVER_MODULES = E.DRIVER_MODULES
+DRIVER_MODULES = E.DRIVER_MODULES + ["BlueskyVerif.Counterexamples.C41"]  # built with the check, not an obligation
 DRIVER = E.DRIVER
 ASSUMPTIONS = [
     "requests from other threads act atomically while _run is suspended at an await",
